@@ -27,7 +27,7 @@ TRUSTED = ["glibc qsort, bsearch, memmove, memset, realloc", "the allocator cap 
 NONTRIVIAL_MIN_TAGS = 4
 SLICE = 2000
 
-_MANIFEST_PENDING = dict(
+MANIFEST = dict(
    text="Lean 4 theorems over a checked-C model of arraylist.c (size_t arithmetic with explicit wrap checks, slots uninit|value, "
         "free_fn calls logged): for every list state satisfying the representation invariant, every allocator behaviour and every "
         "size_t argument, add, put_idx, insert_idx, del_idx, shrink, get_idx, length, sort, bsearch and free do not fault (no size_t "
@@ -231,10 +231,10 @@ STARTS = [["new 0"], ["new 1", "add 11"], ["new 2", "add 21", "add 22", "put 4 2
 
 def gen(rng, tier):
     quick = tier == "quick"
-    n = 1400 if quick else 30000
+    n = 5000 if quick else 60000
     for i in range(n):
         yield {"lines": gen_history(rng, rng.choice([5, 15, 30, 50, 50]), j=rng.chance(0.3))}
-    for i in range(200 if quick else 4000):
+    for i in range(600 if quick else 6000):
         yield {"lines": sorted_history(rng, j=rng.chance(0.4))}
     depth = 3 if quick else 5
     for st in STARTS:
@@ -242,7 +242,7 @@ def gen(rng, tier):
             for seq in itertools.product(ALPHABET, repeat=d):
                 yield {"lines": st + list(seq), "keep": len(st)}
     # the same small scope through the json_object API (shallower)
-    jdepth = 2 if quick else 4
+    jdepth = 3 if quick else 4
     for st in STARTS:
         for d in range(1, jdepth + 1):
             for seq in itertools.product(ALPHABET, repeat=d):
